@@ -310,6 +310,24 @@ def _gen_invariance(seed, cfg):
     rt.shuffle(forms)
     for j_, f_ in enumerate(forms[:rt.randint(1, 3)]):
         cells_t[a1(5, 1 + j_)] = f_ % ((last_t,) * f_.count('%d'))
+    # plain NUMBERS that are Excel serials of (or next to) the dates in the date column, whole and fractional (own
+    # stream): whatever a date criterion does with a number, it must not depend on the zone of the process
+    rsn = core.rng(seed, 'clocksim', 'invariance', 'serials')
+    if rsn.random() < 0.4:
+        dts = [dec_value(v_) for k_, v_ in cells_t.items() if k_[0] == 'E' and isinstance(v_, dict)]
+        rows_e = [rr_ for rr_ in range(last_t) if not isinstance(cells_t.get(a1(4, rr_)), dict)]
+        rsn.shuffle(rows_e)
+        for rr_ in rows_e[:rsn.randint(1, 2)]:
+            if dts:
+                d_ = rsn.choice(dts)
+                serial = (d_ - datetime.datetime(1899, 12, 30)).total_seconds() / 86400.0
+                cells_t[a1(4, rr_)] = rsn.choice([int(serial), int(serial) + 1, int(serial) - 1, round(int(serial) + rsn.choice([0.25, 0.375, 0.625, 0.75]), 3)])
+        if dts:
+            e_rows = [wbgen.parse_a1(k_)[1] for k_, v_ in cells_t.items() if k_[0] == 'E' and isinstance(v_, dict)]
+            for j_ in range(rsn.randint(1, 2)):
+                rr_ = rsn.choice(e_rows)
+                cells_t[a1(9, j_)] = rsn.choice(['=COUNTIFS(E1:E%d,">="&E%d)', '=COUNTIFS(E1:E%d,E%d)', '=SUMIFS(C1:C{n},E1:E%d,"<="&E%d)'.replace('{n}', str(last_t)),
+                                                 '=SUMIF(E1:E%d,">"&E%d,C1:C{n})'.replace('{n}', str(last_t))]) % (last_t, rr_ + 1)
     # ranges of different sizes (own stream): "reported as an error rather than silently mis-aligned" - and reporting it
     # must leave no trace behind for the formulas evaluated afterwards
     rm_ = core.rng(seed, 'clocksim', 'invariance', 'misaligned')
